@@ -116,11 +116,12 @@ Fixpoint encode_all (docs : list (list Z)) : option (list Z) :=
 Definition child_output (g : list Z -> list Z) (child_in : list Z) : list Z :=
   unrecords 10 (map g (records 10 false child_in)).
 
-Definition b64filter_docs (g : list Z -> list Z) (cr_out : bool) (docs : list (list Z)) : bres :=
+(* the tool around an arbitrary child, given as a function from the bytes it reads to the bytes it writes *)
+Definition b64filter_docs_stream (child : list Z -> list Z) (cr_out : bool) (docs : list (list Z)) : bres :=
   match feed_all docs with
   | None => BUB
   | Some (child_in, metas) =>
-    match collect metas (records 10 cr_out (child_output g child_in)) with
+    match collect metas (records 10 cr_out (child child_in)) with
     | CChildShort => BChildShort
     | CSurplus => BSurplus
     | COk out_docs =>
@@ -131,15 +132,24 @@ Definition b64filter_docs (g : list Z -> list Z) (cr_out : bool) (docs : list (l
     end
   end.
 
-Definition b64filter (g : list Z -> list Z) (cr_in cr_out : bool) (input : list Z) : bres :=
+Definition b64filter_stream (child : list Z -> list Z) (cr_in cr_out : bool) (input : list Z) : bres :=
   match decode_all (records 10 cr_in input) with
   | None => BBadInput
-  | Some docs => b64filter_docs g cr_out docs
+  | Some docs => b64filter_docs_stream child cr_out docs
   end.
+
+(* ... and around a child that answers every line l with g l *)
+Definition b64filter_docs (g : list Z -> list Z) (cr_out : bool) (docs : list (list Z)) : bres :=
+  b64filter_docs_stream (child_output g) cr_out docs.
+
+Definition b64filter (g : list Z -> list Z) (cr_in cr_out : bool) (input : list Z) : bres :=
+  b64filter_stream (child_output g) cr_in cr_out input.
 
 (* the tool as built *)
 Definition b64filter_tool (g : list Z -> list Z) (input : list Z) : bres :=
   b64filter g b64f_feeder_strip_cr b64f_collector_strip_cr input.
+Definition b64filter_tool_stream (child : list Z -> list Z) (input : list Z) : bres :=
+  b64filter_stream child b64f_feeder_strip_cr b64f_collector_strip_cr input.
 
 (* what the child receives on its stdin *)
 Definition b64filter_child_stdin (input : list Z) : option (list Z) :=
